@@ -29,9 +29,9 @@ type Mutation struct {
 // ScriptPlan describes one hello built by the toolbox client and fed to a
 // fresh NewConn over a scripted transport.
 type ScriptPlan struct {
-	Keys       []KeySpec    `json:"keys"`             // keys of the client-facing server
-	Target     KeySpec      `json:"target"`           // key the client encrypts to
-	SuiteIdx   int          `json:"suite_idx"`        // which of Target.Suites the client uses
+	Keys       []KeySpec    `json:"keys"`      // keys of the client-facing server
+	Target     KeySpec      `json:"target"`    // key the client encrypts to
+	SuiteIdx   int          `json:"suite_idx"` // which of Target.Suites the client uses
 	InnerSNI   string       `json:"inner_sni"`
 	InnerALPN  []string     `json:"inner_alpn,omitempty"`
 	ExtraIn    int          `json:"extra_in"`
